@@ -21,6 +21,8 @@ ENGINE = "clock"
 LEVEL = "exploration"
 TECHNIQUE = "deterministic simulation: seeded timer operations and advances on a real task.Clock vs reference timer model"
 QUICK_RUNS = 32000
+TWIN_P = 0.08   # this share of the runs drives two independent instances of the scenario one after the other (detsim.runner._run_scenario)
+USES_DEPTH = True   # thorough tier: history length bound scales with sim.depth (1..3) beyond the quick tier\'s run indices
 BATCH = 100
 RUN_WALL_LIMIT_S = 60   # a run takes milliseconds; the margin is for descheduling on a loaded host
 COMPONENTS = {"real": ["twisted.internet.task.Clock.callLater/advance/pump/getDelayedCalls/_sortCalls/seconds",
@@ -119,7 +121,7 @@ class Scenario(TimerScenario):
 
     def main(self):
         sim = self.sim
-        nops = sim.draw_int(4, 100, "nops")
+        nops = sim.draw_int(4, 100 * sim.depth, "nops")
         self.inner_p = sim.draw_choice([0.0, 0.3, 0.5], "inner-ops")
         self.max_calls = sim.draw_choice([40, 8, 20], "max-calls")
         sim.config = {"nops": nops, "inner_p": self.inner_p, "max_calls": self.max_calls}
@@ -129,7 +131,7 @@ class Scenario(TimerScenario):
             op = sim.draw_weighted([("callLater", 6 if room else 0), ("advance", 5), ("cancel", wc),
                                     ("reset", wr), ("delay", wr)], "op")
             if op == "advance":
-                sim.step(self.STEP_CAP)
+                sim.step(self.STEP_CAP * sim.depth)
                 amounts = self._amounts()
                 self.run_passes(amounts, use_pump=len(amounts) > 1)
             else:
